@@ -614,6 +614,7 @@ class Ref:
         self.first = first_name
         self.modes: dict = {}           # (dst model idx, field) -> mode label
         self.labels: set = set()
+        self.risks: set = set()         # situations that belong to a recorded open finding
 
     # ---- predicates on location stacks; a loc is (kind, name, type spec), kind in root/param/field/generic/funcparam
     def match(self, p, stack) -> bool:  # noqa: PLR0911
@@ -635,6 +636,7 @@ class Ref:
 
     # ---- coercion
     def coercer(self, S, D, sst, dst, alt_dst=None):  # noqa: C901, PLR0911, PLR0912
+        hits = []
         for i, it in enumerate(self.recipe):
             if it["k"] != "coercer" or not self.match(it["src"], sst):
                 continue
@@ -644,9 +646,21 @@ class Ref:
                 # destination model) is not documented; a predicate that tells the two apart is not asserted
                 raise RefUnspec("coercer predicate against the location of a link_function parameter")
             if hit:
-                fn = self.fns[i]
-                self.labels.add("coerce:user_" + ("type" if it["src"][0] == "T" else "field"))
-                return lambda v, ctx: fn(v)
+                hits.append((i, it))
+        if len(hits) > 1:
+            self.labels.add("coerce:first_of_several_user_coercers")
+            # open finding C13-notrequired-hides-type-predicate: the winner is found through a type predicate on a
+            # NotRequired TypedDict field while a later coercer is found through a field predicate
+            w = hits[0][1]
+            for side, stack in (("src", sst), ("dst", dst)):
+                if len(stack[-1]) > 3 and stack[-1][3] and w[side][0] == "T" \
+                        and any(h[side][0] != "T" for _, h in hits[1:]):  # noqa: PLR2004
+                    self.risks.add("notrequired_type_predicate")
+        if hits:
+            i, it = hits[0]
+            fn = self.fns[i]
+            self.labels.add("coerce:user_" + ("type" if it["src"][0] == "T" else "field"))
+            return lambda v, ctx: fn(v)
         sk, dk = S[0], D[0]
         if sk == "model" and dk == "model":
             if S[1] == D[1]:
@@ -708,8 +722,9 @@ class Ref:
         top = len(dst) == 1
         E = self.E
         plans = []
+        s_nr = {f["n"]: S["kind"] == "typeddict" and f.get("d") is not None for f in S["fields"]}
         for g in D["fields"]:
-            gst = [*dst, ("field", g["n"], g["t"])]
+            gst = [*dst, ("field", g["n"], g["t"], D["kind"] == "typeddict" and g.get("d") is not None)]
             found = None
             n_matching = 0
             for i, it in enumerate(self.recipe):
@@ -765,7 +780,8 @@ class Ref:
                     co = (lambda fn: lambda v, ctx: fn(v))(fn)
                     self.labels.add("coerce:link_coercer")
                 else:
-                    co = self.coercer(sfield["t"], g["t"], [*sst, ("field", sfield["n"], sfield["t"])], gst)
+                    co = self.coercer(sfield["t"], g["t"],
+                                      [*sst, ("field", sfield["n"], sfield["t"], s_nr[sfield["n"]])], gst)
                 plans.append((g["n"], self._from_field(S, sfield["n"], co)))
                 mode = mode or "link:field"
             elif what == "param":
@@ -830,7 +846,8 @@ class Ref:
             if not fs:
                 raise RefRefuse(f"link_function keyword-only parameter {fname!r} has no model field", False)
             t = annot or ["any"]
-            co = self.coercer(fs[0]["t"], t, [*sst, ("field", fname, fs[0]["t"])], [*gst, ("funcparam", fname, t)],
+            nr = S["kind"] == "typeddict" and fs[0].get("d") is not None
+            co = self.coercer(fs[0]["t"], t, [*sst, ("field", fname, fs[0]["t"], nr)], [*gst, ("funcparam", fname, t)],
                               [*gst[:-1], ("funcparam", fname, t)])
             kws.append((fname, self._from_field(S, fname, co)))
         with_model = spec["model"]
@@ -902,9 +919,6 @@ def check_case(ctx: runner.Ctx, case):  # noqa: C901, PLR0912, PLR0915
     provs, fns = build_recipe(case["recipe"], E)
     first_name, params = api_params(api)
     ref = Ref(E, case, fns, [{"name": p["name"], "t": p["t"] or ["any"]} for p in params], first_name)
-    risks = risk_tags(case)
-    risk = "+".join(risks) or "-"
-
     verdict, plan, reason = "ok", None, ""
     try:
         plan = ref.plan(smi, dmi)
@@ -912,6 +926,8 @@ def check_case(ctx: runner.Ctx, case):  # noqa: C901, PLR0912, PLR0915
         verdict, reason = ("refuse" if e.documented else "unspecified"), e.reason
     except RefUnspec as e:
         verdict, reason = "unspecified", str(e)
+    risks = risk_tags(case) + sorted(ref.risks)
+    risk = "+".join(risks) or "-"
 
     models = case["models"]
     kinds = sorted({m["kind"] for m in models})
@@ -1251,6 +1267,15 @@ class Gen:
         return {"to": to, "tag": next(self.tag), "lam": self.chance(25),
                 "name": self.pick(["c13_coercer", "str", "coercer", "data", "func_0"])}
 
+    def coerced_fields(self) -> set:
+        """(model idx, field) named by a field-predicate coercer (see open finding C13-notrequired-hides-type-predicate)."""
+        out = set()
+        for grp in self.groups:
+            for it in grp:
+                if it["k"] == "coercer":
+                    out |= {(p[1], p[2]) for p in (it["src"], it["dst"]) if p[0] == "PF"}
+        return out
+
     def param(self, name, t):
         for p in self.params:
             if p["name"] == name:
@@ -1289,6 +1314,8 @@ class Gen:
             t = self.pick([x for x in ["int", "str", "float", "bytes", "dec"] if x != u])
             if loc is not None and self.chance(35):
                 self.groups.append([{"k": "coercer", "src": loc[0], "dst": loc[1], "fn": self.fn_spec(t)}])
+                if self.chance(40):   # a second coercer for the same point: whichever comes first in the recipe wins
+                    self.groups.append([{"k": "coercer", "src": ["T", [u]], "dst": ["T", [t]], "fn": self.fn_spec(t)}])
             else:
                 self.groups.append([{"k": "coercer", "src": ["T", [u]], "dst": ["T", [t]], "fn": self.fn_spec(t)}])
             return [u], [t]
@@ -1560,8 +1587,12 @@ class Gen:
         # source NotRequired keys
         if skind == "typeddict":
             for f in sfields:
-                if self.chance(25):
+                if self.chance(25) and (self.probe or (smi, f["n"]) not in self.coerced_fields()):
                     f["d"] = ["v", None]
+        if dkind == "typeddict" and not self.probe:
+            for f in dfields:
+                if (dmi, f["n"]) in self.coerced_fields():
+                    f.pop("d", None)
         dfields = self.order_dst(dkind, dfields)
         self.models[smi] = {"name": sname, "kind": skind, "fields": sfields}
         self.models[dmi] = {"name": dname, "kind": dkind, "fields": dfields}
@@ -1718,6 +1749,14 @@ def fixed_cases():  # noqa: PLR0915
            "api": impl("coercer", [])}
     yield {"models": [S, D3], "src": 0, "dst": 1, "value": val, "args": [], "call": [], "recipe": [],
            "api": {"kind": "get", "via": "module", "split": [0, 0], "name": "coercer"}}
+    # a type-predicate coercer before a field-predicate coercer, source key declared NotRequired
+    S5 = _m("Book", "typeddict", [("title", ["str"], None), ("price", ["int"], ["v", None])])
+    D5 = _m("BookDTO", "dataclass", [("title", ["str"], None), ("price", ["str"], None)])
+    yield {"models": [S5, D5], "src": 0, "dst": 1, "args": [], "call": [],
+           "value": {"$": "obj", "c": "M0", "f": {"title": "t", "price": 1}},
+           "recipe": [{"k": "coercer", "src": ["T", ["int"]], "dst": ["T", ["str"]], "fn": {"to": "str", "tag": 1}},
+                      {"k": "coercer", "src": ["PF", 0, "price"], "dst": ["PF", 1, "price"], "fn": {"to": "str", "tag": 2}}],
+           "api": {"kind": "get", "via": "module", "split": [2, 2], "name": None}}
     D4 = _m("BookDTO", "dataclass", [("title", ["str"], None), ("tags", ["any"], None)])
     yield {"models": [S, D4], "src": 0, "dst": 1, "value": val, "args": [None], "call": ["pos", "omit"], "recipe": [],
            "api": impl("convert_book_to_dto", [{"name": "tags", "t": ["any"], "kind": "pk", "d": [{"$": "t", "v": [1]}]}])}
